@@ -991,7 +991,7 @@ vbi_xds_demux_feed		(vbi_xds_demux *	xd,
 			break;
 		}
 
-		if (sp->count >= sizeof (sp->buffer) + 2) {
+		if (sp->count + (0 != c2) >= sizeof (sp->buffer) + 2) {
 			log ("XDS discard packet 0x%x/0x%02x, "
 			     "buffer overflow\n",
 			     xd->curr.xds_class, xd->curr.xds_subclass);
@@ -999,7 +999,8 @@ vbi_xds_demux_feed		(vbi_xds_demux *	xd,
 		}
 
 		sp->buffer[sp->count - 2] = c1;
-		sp->buffer[sp->count - 1] = c2;
+		if (0 != c2)
+			sp->buffer[sp->count - 1] = c2;
 
 		sp->checksum += c1 + c2;
 		sp->count += 1 + (0 != c2);
